@@ -20,7 +20,11 @@ def bytesPerSample (P : Int) : Int := Int.tdiv (P + 7) 8
 def readSample (P : Int) (signed : Bool) (b0 b1 : Int) : Int :=
   if P ≤ 8 then
     let val := b0
-    if signed && decide (val ≥ 128) then val - 256 else val
+    if signed then
+      -- P-bit two's complement in the low P bits (high bits zero or sign-extended)  [fix 81cd602]
+      let val := Go.and val (Go.shl 1 P - 1)
+      if val ≥ Go.shl 1 (P - 1) then val - Go.shl 1 P else val
+    else val
   else
     let val := Go.or b0 (Go.shl b1 8)
     if signed && decide (val ≥ Go.shl 1 (P - 1)) then val - Go.shl 1 P else val
@@ -118,6 +122,37 @@ def decComma : List Bool → Option (Nat × List Bool)
     | none => none
     | some (n, r) => some (n + 1, r)
 
+/-- floorLog2 (t2/packet_header_bitio.go): `if n <= 1 { return 0 }; for n > 1 { n >>= 1; r++ }`; fuel ≥ n -/
+def floorLog2F : Nat → Nat → Nat
+  | 0, _ => 0
+  | f + 1, n => if n ≤ 1 then 0 else 1 + floorLog2F f (n / 2)
+
+def floorLog2 (n : Nat) : Nat := floorLog2F n n
+
+/-- encodeCodeBlockLengths, single codeword segment (no pass of the contribution is terminated before the last:
+    classic mode without TERMALL/LAZY; also the fallback branch without per-pass lengths):
+    `increment = max(0, floorLog2(len)+1 - (NumLenBits + floorLog2(newPasses)))`, comma code, then `len` in
+    `NumLenBits + floorLog2(newPasses)` bits.  Returns the new NumLenBits and the bits.  `numLenBits ≤ 0 ↦ 3`. -/
+def encLen (numLenBits dataLen newPasses : Nat) : Nat × List Bool :=
+  let l := if numLenBits == 0 then 3 else numLenBits
+  let increment := (floorLog2 dataLen + 1) - (l + floorLog2 newPasses)
+  let l := l + increment
+  (l, encComma increment ++ writeBitsL dataLen (l + floorLog2 newPasses))
+
+/-- decodeDataLengthWithReader, non-TERMALL: comma code, then one length of `NumLenBits + floorLog2(numPasses)` bits
+    (bioReader.readBits rejects a width outside 1..32: `none`) -/
+def decLen (numLenBits numPasses : Nat) (bits : List Bool) : Option (Nat × Nat × List Bool) :=
+  let l := if numLenBits == 0 then 3 else numLenBits
+  match decComma bits with
+  | none => none
+  | some (inc, rest) =>
+    let l := l + inc
+    let n := l + floorLog2 numPasses
+    if n == 0 || n > 32 then none else
+    match readBitsL n 0 rest with
+    | none => none
+    | some (len, rest) => some (len, l, rest)
+
 /-! ### bioWriter / bioReader (t2/packet_header_bitio.go) -/
 
 structure BioW where
@@ -179,6 +214,32 @@ def BioR.readBitsList (r : BioR) : Nat → Option (List Bool × BioR)
     | some (b, r) => match r.readBitsList n with
       | none => none
       | some (bs, r) => some (b :: bs, r)
+
+/-- bioReader.alignToByte (HEAD, since fix aaeb057; OpenJPEG opj_bio_inalign):
+    `if buf&0xff == 0xff { byteIn }; ct = 0` — the stuffing byte after a full 0xFF byte is consumed too -/
+def BioR.alignToByte (r : BioR) : Option BioR :=
+  if r.buf % 256 == 255 then
+    match r.byteIn with
+    | none => none
+    | some r' => some { r' with ct := 0 }
+  else some { r with ct := 0 }
+
+/-- the shape before fix aaeb057 (kept for the regression example): early return when ct = 0 -/
+def BioR.alignToByteOld (r : BioR) : Option BioR :=
+  if r.ct == 0 then some r else r.alignToByte
+
+/-- a packet header on the wire followed by `rest`: read `n` bits, align; what is left of the data -/
+def headerRoundTrip (align : BioR → Option BioR) (bits : List Bool) (rest : List Nat) : Option (List Bool × List Nat) :=
+  match (BioR.new ((BioW.new.writeBitsList bits).flush ++ rest)).readBitsList bits.length with
+  | none => none
+  | some (bs, r) => match align r with
+    | none => none
+    | some r' => some (bs, r'.data)
+
+/-- all bit lists of length n -/
+def allBits : Nat → List (List Bool)
+  | 0 => [[]]
+  | n + 1 => (allBits n).flatMap fun l => [false :: l, true :: l]
 
 /-! ### abstract layers -/
 
